@@ -1,28 +1,51 @@
 (* C05 — property theorems only. *)
-From C05 Require Import Model Spec Proofs.
+From C05 Require Import Model Spec Corr Proofs ProofsRound ProofsBits ProofsCmp ProofsAll.
 Open Scope Z_scope.
 
 (* (1) Inside the guard the code model returns the mathematically exact result in canonical form and
-   leaves its operands unchanged: + - * abs 1+ 1- on fixnums whose exact intermediate results stay in
-   64 bits; floor (positive divisor, or exact), ceiling, truncate, mod, rem on fixnums; < <= > >= on
-   chains of any length over fixnums, bignums and ratios that do not pair a large bignum with a ratio.
-   FULL STATEMENT (false of the faithful model, see (3)):  forall o args, denotes args <> None ->
+   leaves its operands unchanged, for EVERY operation the guard admits:
+   + - * abs 1+ 1- on fixnums whose exact intermediate results stay in 64 bits;
+   floor (positive divisor, or exact), ceiling, truncate, round (half to even; quotient and the remainder
+   number - quotient * divisor), mod, rem on fixnums;
+   < <= > >= and = on chains of any length over fixnums, bignums and ratios in canonical form that do not
+   pair a bignum beyond 64 bits with a ratio in adjacent positions (the result is the mathematical chain
+   a1 R a2 /\ a2 R a3 /\ ... on the exact values);
+   logand logior logxor (any number of integer operands, 0 included) and lognot, where the exact result
+   is a fixnum computed by the fixnum loop or a bignum that does not fit in 64 bits.
+   FULL STATEMENT (false of the faithful model, see (4)):  forall o args, denotes args <> None ->
      s_out o args = Some (m_op o args).
-   NOT COVERED by this theorem although inside in_domain (evaluated on every run only): round, and = . *)
+   NOT COVERED: / gcd lcm (in_domain is false for them: no theorem, correspondence and S as a judge on
+   every run only); operands outside the guard, where either (4) refutes the statement or (2) proves the
+   weaker value-level statement. *)
 Theorem C05_exact_on_domain_partial : forall o args,
-  in_domain o args = true -> o <> ORound Round -> o <> OCmp CEq ->
-  s_out o args = Some (m_op o args).
+  in_domain o args = true -> s_out o args = Some (m_op o args).
 Proof. exact exact_on_domain. Qed.
 Print Assumptions C05_exact_on_domain_partial.
 
-(* (2) exactly one of <, =, > holds, and it is the one of the exact values *)
+(* (2) On the value domain - floor ceiling truncate round with one or two operands of which at least one
+   is a bignum object or a ratio (any representation the implementation can hold; divisor not zero; no
+   bignum beyond 64 bits paired with a ratio), mod and rem with a bignum operand, logand logior logxor on
+   any integers - the code model returns the exact VALUES: the quotient is the floor / ceiling /
+   truncation / round-half-even of the exact rational quotient, the remainder has the value
+   number - quotient * divisor, mod / rem / the bitwise results have the mathematical value. The
+   representation is not canonical there (results are always bignum / ratio objects: known findings),
+   and the operands are untouched except by round (known finding: absolute values in place). *)
+Theorem C05_value_exact_on_value_domain : forall o args,
+  value_domain o args = true ->
+  exists so, s_out o args = Some so /\
+    res_same_value (o_res so) (o_res (m_op o args)) = true /\
+    (o <> ORound Round -> o_args (m_op o args) = args).
+Proof. exact value_exact. Qed.
+Print Assumptions C05_value_exact_on_value_domain.
+
+(* (3) exactly one of <, =, > holds, and it is the one of the exact values *)
 Theorem C05_trichotomy : forall a b, canonical a = true -> canonical b = true -> inexact_pair a b = false ->
   exists lt eq gt, cmp_pair CLt a b = Some lt /\ cmp_pair CEq a b = Some eq /\ cmp_pair CGt a b = Some gt /\
   ((lt = true /\ eq = false /\ gt = false) \/ (lt = false /\ eq = true /\ gt = false) \/ (lt = false /\ eq = false /\ gt = true)).
 Proof. exact trichotomy. Qed.
 Print Assumptions C05_trichotomy.
 
-(* (3) outside the guard the faithful model violates the specification: 19 kernel-checked witnesses,
+(* (4) outside the guard the faithful model violates the specification: 20 kernel-checked witnesses,
    one per guard clause / unmodelled clause; each is a known finding replayed on the implementation *)
 Theorem C05_outside_guard_refuted :
   forallb (fun w => refuted (fst w) (snd w)) refutation_witnesses = true /\
@@ -30,7 +53,7 @@ Theorem C05_outside_guard_refuted :
 Proof. exact outside_guard_refuted. Qed.
 Print Assumptions C05_outside_guard_refuted.
 
-(* (4) the guard is inhabited by non-trivial operand tuples *)
+(* (5) the guard is inhabited by non-trivial operand tuples *)
 Theorem C05_guard_nonvacuous :
   in_domain OAdd [VFix 9223372036854775806; VFix 1; VFix (-5)] = true /\
   in_domain (ORound Floor) [VFix (-7); VFix 2] = true /\ in_domain (ORound Ceiling) [VFix 7; VFix (-2)] = true /\
@@ -38,3 +61,17 @@ Theorem C05_guard_nonvacuous :
   in_domain (OCmp CLt) [VFix 1; VBig B; VRat 1 3] = false /\ in_domain (OCmp CLt) [VRat (-1) 3; VFix 1; VBig B] = true.
 Proof. exact guard_examples. Qed.
 Print Assumptions C05_guard_nonvacuous.
+
+(* (6) ... also by ties of round, = chains, bitwise operations with bignums; and the value domain by
+   ratio and bignum operands of the rounding divisions and of rem *)
+Theorem C05_domains_nonvacuous :
+  in_domain (ORound Round) [VFix 7; VFix (-2)] = true /\ in_domain (ORound Round) [VFix (-9223372036854775807); VFix 2] = true /\
+  in_domain (OCmp CEq) [VRat 1 2; VRat 1 2; VRat 1 2] = true /\ in_domain (OCmp CEq) [VFix 1; VBig B; VRat 1 3] = false /\
+  in_domain (OBit BOr) [VFix 5; VBig 18446744073709551616] = true /\
+  in_domain (OBit BOr) [VFix (-2); VBig 18446744073709551616] = false /\
+  value_domain (OBit BOr) [VFix (-2); VBig 18446744073709551616] = true /\
+  value_domain (ORound Round) [VRat (-7) 2; VRat 1 3] = true /\ value_domain (ORound Floor) [VBig (- B); VFix (-3)] = true /\
+  value_domain (ORound Ceiling) [VRat 7 2] = true /\ value_domain (ORound Floor) [VRat 1 2; VBig B] = false /\
+  value_domain ORem [VBig (-50000000000000000000); VBig 20000000000000000000] = true.
+Proof. exact guard_examples_2. Qed.
+Print Assumptions C05_domains_nonvacuous.
